@@ -6,6 +6,7 @@
 package validator
 
 import (
+	"encoding/json"
 	"fmt"
 	"os"
 	"sort"
@@ -83,7 +84,8 @@ func vfClockProbe(t *testing.T) {
 
 func vfJWTMutations(rt *rapid.T, c vfJWTCfg, now int64, base vfC06Req, tok vfTok, inCookie bool, n int) []vfVariant {
 	kinds := []string{"flip-header", "flip-payload", "flip-sig", "trunc-sig", "resign-other-alg", "alg-none", "header-alg-swap",
-		"other-secret", "expired", "nbf-future", "scheme", "source-conflict", "uncovered", "exp-boundary"}
+		"other-secret", "expired", "expired", "nbf-future", "nbf-future", "scheme", "source-conflict", "uncovered", "exp-boundary",
+		"exp-subsecond", "nbf-subsecond", "odd-claim"}
 	var out []vfVariant
 	for i := 0; i < n; i++ {
 		kind := rapid.SampledFrom(kinds).Draw(rt, "jwtMut")
@@ -134,13 +136,27 @@ func vfJWTMutations(rt *rapid.T, c vfJWTCfg, now int64, base vfC06Req, tok vfTok
 			t2.Secret = vfOtherSecret(rt, c.Secret)
 			place(t2.String())
 		case "expired":
-			t2.Claims["exp"] = now - rapid.SampledFrom([]int64{1, 60, 86400}).Draw(rt, "expiredBy")
+			// at or before now-1 in every spelling: now-1 exactly, or now-d (+ fraction) with d >= 2
+			if by := rapid.SampledFrom([]int64{1, 2, 60, 86400, 200000000}).Draw(rt, "expiredBy"); by == 1 {
+				t2.Claims["exp"] = vfTimeLit(rt, now-1, "whole", "exp")
+			} else {
+				t2.Claims["exp"] = vfTimeLit(rt, now-by, "any", "exp")
+			}
 			place(t2.String())
 		case "exp-boundary":
-			t2.Claims["exp"] = now
+			t2.Claims["exp"] = vfTimeLit(rt, now, "whole", "exp")
+			place(t2.String())
+		case "exp-subsecond":
+			t2.Claims["exp"] = vfTimeLit(rt, now-1, "frac", "exp") // expired by less than a second: open
+			place(t2.String())
+		case "nbf-subsecond":
+			t2.Claims["nbf"] = vfTimeLit(rt, now, "frac", "nbf") // valid in less than a second: open
+			place(t2.String())
+		case "odd-claim":
+			t2.Claims[rapid.SampledFrom([]string{"exp", "nbf", "iat"}).Draw(rt, "oddWhich")] = vfOddClaim(rt, now)
 			place(t2.String())
 		case "nbf-future":
-			t2.Claims["nbf"] = now + rapid.SampledFrom([]int64{1, 60, 86400}).Draw(rt, "nbfIn")
+			t2.Claims["nbf"] = vfTimeLit(rt, now+rapid.SampledFrom([]int64{1, 2, 60, 86400}).Draw(rt, "nbfIn"), "any", "nbf")
 			place(t2.String())
 		case "scheme":
 			if inCookie {
@@ -201,9 +217,9 @@ func TestVerifC06JWT(t *testing.T) {
 			baseKind = rapid.SampledFrom([]string{"expired", "nbf-future", "other-alg", "none", "other-secret", "garbage"}).Draw(rt, "baseKind")
 			switch baseKind {
 			case "expired":
-				tok.Claims["exp"] = now - 1
+				tok.Claims["exp"] = vfTimeLit(rt, now-rapid.SampledFrom([]int64{2, 60, 86400, 200000000}).Draw(rt, "baseExpiredBy"), "any", "exp")
 			case "nbf-future":
-				tok.Claims["nbf"] = now + 1
+				tok.Claims["nbf"] = vfTimeLit(rt, now+rapid.SampledFrom([]int64{1, 60, 86400}).Draw(rt, "baseNbfIn"), "any", "nbf")
 			case "other-alg":
 				tok.HdrAlg = vfOtherAlg(rt, c.Alg)
 				tok.SignAlg = tok.HdrAlg
@@ -229,6 +245,18 @@ func TestVerifC06JWT(t *testing.T) {
 		}
 		for i := 1; i < len(vars); i++ {
 			vars[i].Covered = b.Cred == vfAccept && vars[i].Cred == vfReject
+		}
+		for _, k := range []string{"exp", "nbf", "iat"} {
+			switch c := tok.Claims[k].(type) {
+			case int64:
+				vf.Class("jwt:time-claim-integer")
+			case json.RawMessage:
+				if strings.ContainsAny(string(c), "eE") {
+					vf.Class("jwt:time-claim-exponent-form")
+				} else {
+					vf.Class("jwt:time-claim-fractional")
+				}
+			}
 		}
 		_, hasExp := tok.Claims["exp"]
 		_, hasNbf := tok.Claims["nbf"]
@@ -1057,7 +1085,7 @@ func TestVerifC06Combined(t *testing.T) {
 		if jc != nil {
 			tok = vfGenValidTok(rt, *jc, now)
 			if vfOneIn(rt, 8, "comboTokInvalid") {
-				tok.Claims["exp"] = now - 1
+				tok.Claims["exp"] = vfTimeLit(rt, now-2, "any", "exp")
 			}
 			vfPlaceToken(rt, &req, *jc, tok.String(), jc.Cookie != "")
 		}
@@ -1154,7 +1182,7 @@ func TestVerifC06Combined(t *testing.T) {
 				case "jwt-flip-sig":
 					str = vfFlipSeg(rt, tok.String(), 2)
 				case "jwt-expired":
-					t2.Claims["exp"] = now - 1
+					t2.Claims["exp"] = vfTimeLit(rt, now-rapid.SampledFrom([]int64{2, 3600}).Draw(rt, "comboExpiredBy"), "any", "exp")
 				case "jwt-other-secret":
 					t2.Secret = vfOtherSecret(rt, jc.Secret)
 				default:
